@@ -253,7 +253,10 @@ RANDOM_PROGRAMS = {
             [op('mark_heads_by_rules', preset='negra')], [op('mark_heads_by_rules', preset='ptb')],
             [op('mark_heads_by_rules', preset='foo')], [op('mark_heads_by_rules')]],
     'C11': [[PDEL], [PTBS[0]], [PTBS[1]], [PTBS[3]], [INS[5]], [SUB[4]], [SUB[5]], [FILT[4]], [PDEL, INS[2]],
-            [op('delete_terminal', pos=1)], [op('delete_terminal', pos=2), PDEL]],
+            [op('delete_terminal', pos=1)], [op('delete_terminal', pos=2), PDEL],
+            # a terminal file naming one position twice is rejected
+            [op('insert_terminals', rows=[(2, 'x', 'NEW'), (2, 'y', 'NEU')])],
+            [op('substitute_terminals', rows=[(1, 'x', 'NEW'), (1, 'x', 'NEW')], flags=['quiet'])]],
     'C04': [[ROOT_ATTACH, NEGRA, SPLIT, RAISE, TOP], [ROOT_ATTACH, RULES_N, NEGRA, SPLIT, RAISE], [RULES_P, NEGRA, BIN],
             [NEGRA, BIN, NEGRA, SPLIT, RAISE], [ROOT_ATTACH, PVL, NEGRA, BIN, COL, UNC],
             [PRT, NEGRA, BIN], [ROOT_ATTACH, PSY, PVL, TOP, COL], [NEGRA, SPLIT, RAISE, BIN, COL, UNC],
